@@ -1,0 +1,62 @@
+//go:build verif
+
+// Contracts for the range wrapper, read by /verif/kvc (contract-based deductive verification).
+// The wrapper's model is the source restricted to [start, end) (nil = unbounded); checkBounds is the
+// decisive predicate.  Comment-only; excluded from every build without the `verif` tag.
+package bounded
+
+//@ predicate KeyInRange(b *BoundedIterator, k bstr) = (b.start == nil || !blt(k, bstr(b.start))) && (b.end == nil || blt(k, bstr(b.end)))
+//@ predicate InBounds(b *BoundedIterator) = iterator.IterValid(b.Iterator) && KeyInRange(b, b.Iterator.keys[b.Iterator.pos])
+
+//@ func (*BoundedIterator).checkBounds
+//@   requires b.Iterator != nil
+//@   modifies nothing
+//@   ensures[C05] result == InBounds(b)
+//@ func (*BoundedIterator).Valid
+//@   requires b.Iterator != nil
+//@   modifies nothing
+//@   ensures[C05] result == InBounds(b)
+//@ func (*BoundedIterator).Key
+//@   requires b.Iterator != nil
+//@   modifies nothing
+//@   ensures[C05] InBounds(b) ==> result != nil && bstr(result) == b.Iterator.keys[b.Iterator.pos]
+//@   ensures[C05] !InBounds(b) ==> result == nil
+//@ func (*BoundedIterator).IsTombstone
+//@   requires b.Iterator != nil
+//@   modifies nothing
+//@   ensures[C05] result == (InBounds(b) && b.Iterator.tomb[b.Iterator.pos])
+
+// SeekToFirst: the source cursor is on the first key >= start (everything before it is below start).
+//@ func (*BoundedIterator).SeekToFirst
+//@   requires b.Iterator != nil && iterator.IterSorted(b.Iterator)
+//@   modifies b.Iterator.pos
+//@   ensures[C05] 0 <= b.Iterator.pos && b.Iterator.pos <= b.Iterator.n
+//@   ensures[C05] b.start == nil ==> b.Iterator.pos == 0
+//@   ensures[C05] b.start != nil ==> (forall i int :: 0 <= i && i < b.Iterator.pos ==> blt(b.Iterator.keys[i], bstr(b.start))) && (b.Iterator.pos < b.Iterator.n ==> !blt(b.Iterator.keys[b.Iterator.pos], bstr(b.start)))
+
+// Seek(t): first key >= max(t, start) if that key is below end, otherwise invalid (returns Valid()).
+//@ func (*BoundedIterator).Seek
+//@   requires b.Iterator != nil && iterator.IterSorted(b.Iterator)
+//@   modifies b.Iterator.pos
+//@   ensures[C05] result == InBounds(b)
+//@   ensures[C05] result ==> (forall i int :: 0 <= i && i < b.Iterator.pos ==> blt(b.Iterator.keys[i], bstr(target)) || (b.start != nil && blt(b.Iterator.keys[i], bstr(b.start)))) && !blt(b.Iterator.keys[b.Iterator.pos], bstr(target))
+//@   ensures[C05] !result ==> (forall i int :: 0 <= i && i < b.Iterator.n && KeyInRange(b, b.Iterator.keys[i]) ==> blt(b.Iterator.keys[i], bstr(target)))
+
+// Next: from a position inside the range, advance the source by one; outside the range stay invalid.
+//@ func (*BoundedIterator).Next
+//@   requires b.Iterator != nil
+//@   modifies b.Iterator.pos
+//@   ensures[C05] old(InBounds(b)) ==> b.Iterator.pos == old(b.Iterator.pos) + 1
+//@   ensures[C05] !old(InBounds(b)) ==> b.Iterator.pos == old(b.Iterator.pos) && !result
+//@   ensures[C05] result == InBounds(b)
+
+// SeekToLast: positioned on the greatest key of the range whenever the range holds a key.
+//@ func (*BoundedIterator).SeekToLast
+//@   requires b.Iterator != nil && iterator.IterSorted(b.Iterator)
+//@   modifies b.Iterator.pos
+//@   ensures[C05] forall i int :: b.Iterator.pos < i && i < b.Iterator.n && 0 <= b.Iterator.pos ==> !KeyInRange(b, b.Iterator.keys[i])
+//@   ensures[C05] (forall i int :: 0 <= i && i < b.Iterator.n && KeyInRange(b, b.Iterator.keys[i]) ==> InBounds(b))
+//@ loop (*BoundedIterator).SeekToLast#1
+//@   invariant[C05] b.Iterator != nil && b.end != nil && 0 <= b.Iterator.pos && b.Iterator.pos <= b.Iterator.n && iterator.IterSorted(b.Iterator)
+//@   invariant[C05] forall i int :: 0 <= i && i < b.Iterator.pos ==> blt(b.Iterator.keys[i], bstr(b.end))
+//@   invariant[C05] (b.Iterator.pos == 0 ==> lastKey == nil) && (b.Iterator.pos > 0 ==> lastKey != nil && bstr(lastKey) == b.Iterator.keys[b.Iterator.pos - 1])
